@@ -9,9 +9,9 @@ STUBS = ["verif_err.c", "verif_libc.c", "verif_alloc.c"]
 
 # script name -> (entry, defines, sources, K = number of allocations in the fault-free run, unwind)
 SCRIPTS = {
-    "vnadata": ("h_script_vnadata", ["-DS_VNADATA", "-DVD_R_MAX=3", "-DVD_F_MAX=3", "-DVD_FA_MAX=3", "-DVD_MA_MAX=9", "-DVD_PA_MAX=3"],
+    "vnadata": ("h_script_vnadata", ["-DS_VNADATA", "-DWF_AFTER_FAULT", "-DVD_R_MAX=3", "-DVD_F_MAX=3", "-DVD_FA_MAX=3", "-DVD_MA_MAX=9", "-DVD_PA_MAX=3"],
                 C15.SRCS, 0, 8),
-    "vnadata_addf": ("h_script_vnadata", ["-DS_VNADATA", "-DS_ADD_FREQUENCY", "-DVD_R_MAX=3", "-DVD_F_MAX=4", "-DVD_FA_MAX=51", "-DVD_MA_MAX=9", "-DVD_PA_MAX=3"],
+    "vnadata_addf": ("h_script_vnadata", ["-DS_VNADATA", "-DWF_AFTER_FAULT", "-DS_ADD_FREQUENCY", "-DVD_R_MAX=3", "-DVD_F_MAX=4", "-DVD_FA_MAX=51", "-DVD_MA_MAX=9", "-DVD_PA_MAX=3"],
                 C15.SRCS, 0, 52),
     "vnacal": ("h_script_vnacal", ["-DS_VNACAL", "-DVERIF_CUT_rfi_after_search=__CPROVER_assume(0)"],
                ["vnacal_create.c", "vnacal_free.c", "vnacal_parameter.c", "vnacal_make_scalar_parameter.c",
@@ -67,7 +67,7 @@ def jobs(tier):
                            union_struct=True, kind="proof", canary=(k == 0),
                            functions=["allocation sites reached by script '%s'" % name],
                            bound="scripted history '%s', allocation index k=%d of %d failed once; values symbolic" % (name, k, K),
-                           timeout=200))
+                           timeout=500))
     return J
 
 
